@@ -43,6 +43,10 @@ func vc11pSum(name string) string {
 var (
 	vc11pPoolOnce sync.Once
 	vc11pPoolVal  []string
+
+	// vc11pZero and vc11pOnes are names whose digests start with 00 00 and
+	// ff ff: what a prefix that is never filled in would select.
+	vc11pZero, vc11pOnes string
 )
 
 func vc11pPool() []string {
@@ -55,7 +59,21 @@ func vc11pPool() []string {
 			}
 		}
 
+		for i := 0; vc11pZero == "" || vc11pOnes == ""; i++ {
+			switch c := fmt.Sprintf("z%d.com", i); vc11pSum(c)[:4] {
+			case "0000":
+				if vc11pZero == "" {
+					vc11pZero = c
+				}
+			case "ffff":
+				if vc11pOnes == "" {
+					vc11pOnes = c
+				}
+			}
+		}
+
 		vc11pPoolVal = []string{
+			vc11pZero, vc11pOnes,
 			"bad.example.com", twin, "adult.example.net", "scam.example.org", "phish.co.uk", "new.example.io",
 			"a.bad.example.com", "x.test",
 		}
@@ -70,7 +88,13 @@ func vc11pGenList(t *rapid.T, label string) (text string, listed map[string]bool
 	listed = map[string]bool{}
 	var lines []string
 	for _, name := range vc11pPool() {
-		switch rapid.IntRange(0, 7).Draw(t, label) {
+		k := rapid.IntRange(0, 7).Draw(t, label)
+		if (name == vc11pZero || name == vc11pOnes) && k >= 5 {
+			// The magic names are listed more often than the others.
+			k = 0
+		}
+
+		switch k {
 		case 0, 1, 2:
 			lines = append(lines, name)
 			listed[name] = true
@@ -176,11 +200,12 @@ func vc11pKeys(m map[string]bool) (keys []string) {
 func TestVerifC11Preservice(t *testing.T) {
 	st := vstat.New("C11", "preservice.txt",
 		"rapid histories through preservice.Middleware over a real hashprefix.Matcher with two storages (general and adult "+
-			"suffix): lists over an 8-name pool containing a prefix twin, questions (TXT and other types; 1-5 prefix labels "+
+			"suffix): lists over a 10-name pool containing a prefix twin and names whose digests start with 0000 and ffff, questions (TXT and other types; 1-5 prefix labels "+
 			"pool/legacy/other/malformed; hosts under and outside the suffixes; mixed-case question names), storage resets; "+
 			"non-trivial = TXT query under a suffix with a non-empty expected answer; distinct by (suffix, prefixes, expected)",
 		"txt-answer-nonempty", "txt-answer-empty", "txt-answer-two-names-one-prefix", "txt-legacy8", "txt-refused",
-		"txt-outside-suffix-forwarded", "non-txt-forwarded", "txt-answer-after-reset")
+		"txt-outside-suffix-forwarded", "non-txt-forwarded", "txt-answer-after-reset",
+		"txt-repeated-prefix-with-zero-hash-listed")
 	st.Finish(t)
 
 	msgs := agdtest.NewConstructor(t)
@@ -254,6 +279,19 @@ func TestVerifC11Preservice(t *testing.T) {
 			malformed, free := false, false
 			for i := 0; i < nLabels; i++ {
 				l := vc11pGenLabel(t, nLabels <= 2)
+				if i > 0 && rapid.IntRange(0, 2).Draw(t, "repeat") == 0 {
+					// Request an earlier prefix again, in one of its forms.
+					if e := labels[rapid.IntRange(0, i-1).Draw(t, "repeatOf")]; e.pref != "" && !e.free {
+						l = e
+						switch rapid.IntRange(0, 2).Draw(t, "repeatForm") {
+						case 1:
+							l = vc11pLabel{text: e.pref, kind: "pref-pool4", pref: e.pref}
+						case 2:
+							l = vc11pLabel{text: e.pref + vc11pSum(e.text + "tail")[:4], kind: "pref-legacy8-other-tail", pref: e.pref}
+						}
+					}
+				}
+
 				labels = append(labels, l)
 				texts = append(texts, l.text)
 				kinds = append(kinds, l.kind)
@@ -374,6 +412,16 @@ func TestVerifC11Preservice(t *testing.T) {
 					}
 				} else {
 					classes = append(classes, "txt-answer-empty")
+				}
+
+				if len(labels) > len(prefs) {
+					if listed[which][vc11pZero] && !prefs["0000"] {
+						classes = append(classes, "txt-repeated-prefix-with-zero-hash-listed")
+					}
+
+					if listed[which][vc11pOnes] && !prefs["ffff"] {
+						classes = append(classes, "txt-repeated-prefix-with-ones-hash-listed")
+					}
 				}
 
 				for _, n := range byPref {
